@@ -599,6 +599,7 @@ impl Ctx {
                 "excluded_known": excluded,
                 "known_findings_hit": self.known_hits.iter().collect::<Vec<_>>(),
                 "harness_errors": self.harness_errors,
+                "libfuzzer": std::env::var("VERIF_FUZZ_SUMMARY").ok().and_then(|s| serde_json::from_str::<Value>(&s).ok()),
             },
             "assumptions": self.assumptions,
             "wall_s": wall,
